@@ -776,7 +776,7 @@ def c07_5(ck, prog):
     if not som_ids:
         raise AnalysisBroken('bus_dispatch_matches no longer calls send_one_message')
     head, body, bad, on_transfer = lib.loop_exits_only_when(
-        dm, r, 'recipients', lambda blk: (blk.get('term') or {}).get('kind') == 'WhileStmt',
+        dm, r, 'recipients', lambda blk: (blk.get('term') or {}).get('kind') in ('WhileStmt', 'ForStmt'),
         lambda ctx, frm: any(ctx.result_known(c) is False for c in som_ids), 'send failed')
     Explorer(dm, on_transfer=on_transfer, calls={'send_one_message'}, track='auto').run()
     if bad:
